@@ -453,11 +453,19 @@ fn run_case(case: &Value) -> Value {
                     Some(Slot::Udp(s, h)) => {
                         guard.set_current(hosts[*h]);
                         let buf = vec![7u8; len];
-                        let mut f = Box::pin(s.send_to(&buf, dst));
-                        match poll_once(f.as_mut()) {
-                            Poll::Ready(Ok(n)) => json!({"r": "ok", "n": n}),
-                            Poll::Ready(Err(e)) => json!({"r": err(&e)}),
-                            Poll::Pending => json!({"r": "pending"}),
+                        if len % 2 == 0 {
+                            let mut f = Box::pin(s.send_to(&buf, dst));
+                            match poll_once(f.as_mut()) {
+                                Poll::Ready(Ok(n)) => json!({"r": "ok", "n": n}),
+                                Poll::Ready(Err(e)) => json!({"r": err(&e)}),
+                                Poll::Pending => json!({"r": "pending"}),
+                            }
+                        } else {
+                            // same kernel entry point (poll_send_to) through the non-async API
+                            match s.try_send_to(&buf, dst) {
+                                Ok(n) => json!({"r": "ok", "n": n}),
+                                Err(e) => json!({"r": err(&e)}),
+                            }
                         }
                     }
                     _ => json!({"r": "noslot"}),
